@@ -456,3 +456,189 @@ class Scheduler:
 
     def schedule_hash(self):
         return hashlib.blake2b(",".join(self.decisions).encode(), digest_size=8).hexdigest()
+
+
+# ---------------------------------------------------------------- I4 exception failpoints (sys.monitoring)
+
+class InjectedFault(Exception):
+    """Raised at the k-th Python function entry inside the monitored modules."""
+
+
+class PyFailpoints:
+    """Count (and optionally fail) PY_START events of functions defined in files matching `match`.
+
+    usage: fp = PyFailpoints(lambda filename: "/breezy/commit.py" in filename)
+           with fp.armed(fail_at=None): ...   -> fp.count   (dry run)
+           with fp.armed(fail_at=k): ...      -> raises InjectedFault at the k-th matching entry
+    """
+
+    TOOL_ID = 4
+
+    def __init__(self, match, exc=InjectedFault):
+        self.match = match
+        self.exc = exc
+        self.count = 0
+        self.fail_at = None
+        self.fired_in = None
+        self._cache = {}
+
+    def _cb(self, code, offset):
+        import sys
+
+        fn = code.co_filename
+        m = self._cache.get(fn)
+        if m is None:
+            m = self._cache[fn] = bool(self.match(fn))
+        if not m:
+            return sys.monitoring.DISABLE
+        self.count += 1
+        if self.fail_at is not None and self.count == self.fail_at:
+            self.fired_in = "%s.%s" % (os.path.splitext(os.path.basename(fn))[0], code.co_name)
+            raise self.exc("injected at entry #%d: %s" % (self.count, self.fired_in))
+
+    @contextlib.contextmanager
+    def armed(self, fail_at=None):
+        import sys
+
+        mon = sys.monitoring
+        self.count = 0
+        self.fail_at = fail_at
+        self.fired_in = None
+        try:
+            mon.use_tool_id(self.TOOL_ID, "vf-failpoints")
+        except ValueError:
+            pass
+        mon.register_callback(self.TOOL_ID, mon.events.PY_START, self._cb)
+        mon.set_events(self.TOOL_ID, mon.events.PY_START)
+        mon.restart_events()
+        try:
+            yield self
+        finally:
+            mon.set_events(self.TOOL_ID, 0)
+            mon.register_callback(self.TOOL_ID, mon.events.PY_START, None)
+            try:
+                mon.free_tool_id(self.TOOL_ID)
+            except Exception:
+                pass
+
+
+# ---------------------------------------------------------------- I3 OS failpoints
+
+class OsFaults:
+    """Count / fail file-system calls made while `armed` (process-wide wrappers, pass-through when idle).
+
+    Wrapped: os.rename, os.replace, os.unlink, os.remove, os.rmdir, os.mkdir, os.chmod, os.symlink, os.link,
+    shutil.rmtree, and delete_any under the names breezy modules bound it to.
+    usage: F = OsFaults.get(); F.begin(fail_at=None|k, errno_=EIO, only_in=("/transform.py",)) ... F.end() -> F.count, F.calls
+    `window` (callable) decides whether we are inside the operation under test (e.g. inside tt.apply()).
+    """
+
+    _inst = None
+
+    @classmethod
+    def get(cls):
+        if cls._inst is None:
+            cls._inst = cls()
+            cls._inst._install()
+        return cls._inst
+
+    def __init__(self):
+        self.active = False
+        self.depth = 0          # > 0 while inside the window (e.g. tt.apply)
+        self.count = 0
+        self.fail_at = None
+        self.errno_ = 5
+        self.calls = []
+        self.fired = None
+        self.only_in = None
+
+    def begin(self, fail_at=None, errno_=5, only_in=None):
+        self.active = True
+        self.depth = 0
+        self.count = 0
+        self.fail_at = fail_at
+        self.errno_ = errno_
+        self.calls = []
+        self.fired = None
+        self.only_in = only_in
+
+    def end(self):
+        self.active = False
+        self.depth = 0
+
+    def _hit(self, name, args):
+        if not self.active or self.depth <= 0:
+            return
+        if self.only_in is not None:
+            import sys
+
+            f = sys._getframe(2)
+            ok = False
+            for _ in range(4):
+                if f is None:
+                    break
+                if f.f_code.co_filename.endswith(self.only_in):
+                    ok = True
+                    break
+                f = f.f_back
+            if not ok:
+                return
+        self.count += 1
+        a0 = args[0] if args else None
+        self.calls.append((name, a0 if isinstance(a0, str) else repr(a0)))
+        if self.fail_at is not None and self.count == self.fail_at:
+            self.fired = (name, a0)
+            self.fail_at = None
+            raise OSError(self.errno_, "injected fault", a0 if isinstance(a0, str) else None)
+
+    def _wrap(self, mod, attr, name=None):
+        orig = getattr(mod, attr)
+        if getattr(orig, "_vf_wrapped", False):
+            return
+        nm = name or attr
+        me = self
+
+        def w(*a, **kw):
+            me._hit(nm, a)
+            return orig(*a, **kw)
+        w._vf_wrapped = True
+        w.__name__ = getattr(orig, "__name__", nm)
+        setattr(mod, attr, w)
+
+    def _install(self):
+        import shutil
+
+        for a in ("rename", "replace", "unlink", "remove", "rmdir", "mkdir", "chmod", "symlink", "link"):
+            self._wrap(os, a, "os." + a)
+        self._wrap(shutil, "rmtree", "shutil.rmtree")
+        import breezy.osutils
+        import breezy.transform
+
+        self._wrap(breezy.osutils, "delete_any", "delete_any")
+        self._wrap(breezy.osutils, "chmod_if_possible", "chmod_if_possible")
+        self._wrap(breezy.transform, "delete_any", "delete_any")
+        for m in ("breezy.bzr.transform", "breezy.git.transform", "breezy.bzr.workingtree", "breezy.clean_tree"):
+            try:
+                mod = __import__(m, fromlist=["x"])
+            except Exception:
+                continue
+            if hasattr(mod, "delete_any"):
+                self._wrap(mod, "delete_any", "delete_any")
+
+    def window(self, cls, method):
+        """Make cls.method the window: faults are armed only while it runs."""
+        orig = getattr(cls, method)
+        if getattr(orig, "_vf_window", False):
+            return
+        me = self
+
+        def w(*a, **kw):
+            me.depth += 1
+            try:
+                return orig(*a, **kw)
+            finally:
+                me.depth -= 1
+        w._vf_window = True
+        w.__name__ = method
+        w.__doc__ = orig.__doc__
+        setattr(cls, method, w)
